@@ -335,7 +335,7 @@ func ruleCodecGeometry(c *Ctx, r *Report, prefix string) {
 			fmt.Sprintf("distance coder geometry deviates from the LZMA format: %v", got))
 	}
 	// lenState(l) = min(l, 3)
-	if fn := c.Func("lzma", "lenState"); fn != nil {
+	if fn := c.funcQuiet("lzma", "lenState"); fn != nil { // when inlined into the distance codec, SIB-CODEC checks the clamp there
 		ok := true
 		for l := int64(0); l < 300; l++ {
 			in := NewInterp(c)
